@@ -43,6 +43,8 @@ class SimTor(object):
 
     def answer(self, line):
         word = line.split(" ", 1)[0].upper()
+        if word == "SETEVENTS":
+            self.subscribed = tuple(line.split()[1:])
         if word in self.handlers:
             r = self.handlers[word](line)
             if r is not None:
@@ -101,6 +103,13 @@ class SimTor(object):
         self.proto.dataReceived(reply if reply is not None else self.answer(line))
         self.pump()
 
+    strict_events = False      # True: like Tor, send an event only if the last SETEVENTS this connection got lists it
+    subscribed = ()
+
     def event(self, text):
+        if self.strict_events:
+            name = text[4:].split()[0].split("\r")[0]
+            if name not in self.subscribed:
+                return
         self.proto.dataReceived(text.encode("latin-1"))
         self.pump()
